@@ -305,6 +305,22 @@ func c20CheckValue(env *h.Env, c *c20ValueCase) error {
 	if err := packetEq(p, &q4); err != nil {
 		return fmt.Errorf("strict round trip: %v", err)
 	}
+	// MarshalTo into a caller's buffer: exactly sized, and longer than needed (a pooled
+	// scratch buffer): the encoding is the first n bytes
+	for _, extra := range []int{0, 1, 64} {
+		buf := bytes.Repeat([]byte{0xAA}, len(enc)+extra)
+		n, err := p.MarshalTo(buf)
+		if err != nil || n != len(enc) {
+			return fmt.Errorf("MarshalTo(buffer of %d+%d): n=%d err=%v, Marshal gives %d bytes", len(enc), extra, n, err, len(enc))
+		}
+		var q5 types.Packet
+		if err := q5.UnmarshalVT(buf[:n]); err != nil {
+			return fmt.Errorf("MarshalTo(buffer of %d+%d): the first n bytes do not decode: %v", len(enc), extra, err)
+		}
+		if err := packetEq(p, &q5); err != nil {
+			return fmt.Errorf("MarshalTo(buffer of %d+%d) round trip: %v", len(enc), extra, err)
+		}
+	}
 	// Stat alone, including the sized-buffer form the receiver uses for the listing
 	if p.Stat != nil {
 		n := p.Stat.SizeVT()
